@@ -221,6 +221,89 @@ func checkC10(c *Ctx) {
 			"every `return true` is dominated by the deny-list loop", "an address can be allowed without the deny list having been scanned")
 	}
 
+	// 3b. every configured entry becomes a rule or an error: nothing is skipped silently
+	nf := p.Fn("internal/adminapi", "", "NewIPFilter")
+	spF := &Spec{
+		Event: func(in ssa.Instruction, fr *Frame) string {
+			if ci, ok := in.(ssa.CallInstruction); ok {
+				switch {
+				case CalleeName(ci) == "builtin:append":
+					return "append(" + p.Desc(ci.Common().Args[0], fr) + ")"
+				case strings.HasSuffix(CalleeName(ci), "adminapi.parseCIDR"):
+					return "parse(" + p.Desc(ci.Common().Args[0], fr) + ")"
+				}
+			}
+			if nx, ok := in.(*ssa.Next); ok {
+				return "iter(" + p.Desc(nx.Iter, fr) + ")"
+			}
+			return ""
+		},
+		Cond:   p.condMentions("parseCIDR"),
+		Expand: func(*ssa.Function, ssa.CallInstruction) bool { return false },
+	}
+	c.traceRule("filter-entries-accounted", "adminapi.NewIPFilter", nf, spF,
+		"every list entry visited is parsed and either appended to its list or makes construction fail",
+		func(t *Trace) string {
+			// entries are visited through index loops: count loop-body visits by the parse events
+			var pending string
+			for i, it := range t.Items {
+				switch {
+				case strings.HasPrefix(it.Label, "parse("):
+					pending = it.Label
+					// what happens to this entry?
+					ok := false
+					for _, jt := range t.Items[i+1:] {
+						if strings.HasPrefix(jt.Label, "parse(") {
+							break
+						}
+						if strings.HasPrefix(jt.Label, "append(") {
+							ok = true
+						}
+					}
+					if !ok && !(len(t.Ret) == 2 && t.Ret[1].K == ANonNil) {
+						return "an entry is parsed but neither added to the filter nor reported as an error"
+					}
+				}
+			}
+			_ = pending
+			return ""
+		})
+	if nf != nil {
+		// structural: inside each entry loop every path reaches parseCIDR (no `continue` before it)
+		okLoops, nLoops := true, 0
+		instrsOf(nf, func(in ssa.Instruction) {
+			ci, ok := in.(ssa.CallInstruction)
+			if !ok || !strings.HasSuffix(CalleeName(ci), "adminapi.parseCIDR") {
+				return
+			}
+			nLoops++
+			hdr := loopHeader(in.Block())
+			if hdr == nil {
+				okLoops = false
+				return
+			}
+			// the loop body's entry block must be the block that parses (or dominate it with no other exit back to the header)
+			for _, b := range nf.Blocks {
+				if !hdr.Dominates(b) || b == hdr || !reaches(b, hdr, map[*ssa.BasicBlock]bool{}) {
+					continue
+				}
+				if in.Block().Dominates(b) || b.Dominates(in.Block()) && len(b.Succs) == 1 {
+					continue
+				}
+				if b.Dominates(in.Block()) {
+					// a branch before parsing that can go back to the header skips the entry
+					for _, s := range b.Succs {
+						if s == hdr || (!s.Dominates(in.Block()) && s != in.Block() && reaches(s, hdr, map[*ssa.BasicBlock]bool{}) && !reaches(s, in.Block(), map[*ssa.BasicBlock]bool{})) {
+							okLoops = false
+						}
+					}
+				}
+			}
+		})
+		c.Check(okLoops && nLoops >= 2, "filter-entries-accounted", "adminapi.NewIPFilter/no-skipped-entry", p.Pos(nf.Pos()),
+			"both entry loops parse every element", "a list entry can be skipped without being parsed: a list of only such entries yields an empty filter, which allows every address")
+	}
+
 	// 4, 6. middleware
 	mw := p.Fn("internal/adminapi", "IPFilter", "Middleware")
 	var mwInner *ssa.Function
